@@ -304,7 +304,7 @@ Section SettingsProofs.
   Proof.
     destruct s as [b|ty fmt enum cst nv sv ik items ai mni mxi uq props req ap mnp mxp allo anyo oneo no ref dflt title];
       [discriminate|].
-    intro H. cbn [conv_s]. rewrite H. reflexivity.
+    intro H. cbn [conv_s union_of]. rewrite H. reflexivity.
   Qed.
 
   (* [C14F] the same for the non-null part of `type: [T, "null"]`: Option around the native entry *)
@@ -314,7 +314,7 @@ Section SettingsProofs.
   Proof.
     destruct s as [b|ty fmt enum cst nv sv ik items ai mni mxi uq props req ap mnp mxp allo anyo oneo no ref dflt title];
       [discriminate|].
-    intros H0 H1 H2. cbn [conv_s]. rewrite H0, H1, H2. reflexivity.
+    intros H0 H1 H2. cbn [conv_s union_of]. rewrite H0, H1, H2. reflexivity.
   Qed.
 
   (* [C14F] what the cache answers: the native entry of the FIRST configured conversion whose schema
@@ -355,7 +355,7 @@ Section SettingsProofs.
     conv_s cls S rid s nm s0 =
     conv_node cls rid (conv_s cls S rid)
       (classify ty fmt enum cst nv sv ik items ai mni mxi uq props req ap mnp mxp allo anyo oneo no ref dflt title)
-      nm items props req ap oneo s0.
+      nm items props req ap (union_of oneo anyo) s0.
   Proof.
     intros s H. unfold hit in H. subst s. cbn [conv_s].
     destruct (cache_lookup S _); [discriminate|].
@@ -365,10 +365,11 @@ Section SettingsProofs.
   Lemma conv_s_frame rid : forall s nm s0 te s1, conv_s cls S rid s nm s0 = Some (te, s1) -> frame s0 s1.
   Proof.
     apply (schema_ind_p (fun s => forall nm s0 te s1, conv_s cls S rid s nm s0 = Some (te, s1) -> frame s0 s1)).
-    - intros [|] nm s0 te s1 H; cbn [conv_s] in H; [|discriminate]. injection H as _ <-. apply frame_set_json.
+    - intros [|] nm s0 te s1 H; cbn [conv_s union_of] in H; [|discriminate]. injection H as _ <-. apply frame_set_json.
     - intros ty fmt enum cst nv sv ik items ai mni mxi uq props req ap mnp mxp allo anyo oneo no ref dflt title
-             IHi IHp IHa IHo nm s0 te s1 H.
+             IHi IHp IHa IHo IHy nm s0 te s1 H.
       cbn [conv_s] in H. destruct (cache_lookup S _) as [d|]; [injection H as _ <-; apply frame_refl|].
+      pose proof (union_IH _ oneo anyo IHo IHy) as IHu. change (OForall (Forall (fun b => (forall nm s0 te s1, conv_s cls S rid b nm s0 = Some (te, s1) -> frame s0 s1) /\ PropP (fun s => forall nm s0 te s1, conv_s cls S rid s nm s0 = Some (te, s1) -> frame s0 s1) b)) (union_of oneo anyo)) in IHu.
       destruct (match null_inner _ with Some ss => cache_lookup S ss | None => None end) as [d|].
       + destruct (assign d s0) as [i sa] eqn:Ha. injection H as _ <-. exact (assign_frame _ _ _ _ Ha).
       + revert H. apply (conv_node_frame cls rid (conv_s cls S rid)
@@ -729,8 +730,9 @@ Proof.
   apply (schema_ind_p (fun s => forall nm s0, conv_s cls no_settings rid s nm s0 = conv cls rid s nm s0)).
   - intros [|] nm s0; reflexivity.
   - intros ty fmt enum cst nv sv ik items ai mni mxi uq props req ap mnp mxp allo anyo oneo no ref dflt title
-           IHi IHp IHa IHo nm s0.
+           IHi IHp IHa IHo IHy nm s0.
     cbn [conv_s conv]. rewrite cache_lookup_none.
+    pose proof (union_IH _ oneo anyo IHo IHy) as IHu. change (OForall (Forall (fun b => (forall nm s0, conv_s cls no_settings rid b nm s0 = conv cls rid b nm s0) /\ PropP (fun s => forall nm s0, conv_s cls no_settings rid s nm s0 = conv cls rid s nm s0) b)) (union_of oneo anyo)) in IHu.
     assert (E : match null_inner (SObj ty fmt enum cst nv sv ik items ai mni mxi uq props req ap mnp mxp allo anyo oneo no ref dflt title)
                 with Some ss => cache_lookup no_settings ss | None => None end = None).
     { destruct (null_inner _); [apply cache_lookup_none|reflexivity]. }
